@@ -1,0 +1,30 @@
+// Copyright 2024, Chef.  All rights reserved.
+// https://github.com/q191201771/lal
+//
+// Use of this source code is governed by a MIT-style license
+// that can be found in the License file.
+
+package base
+
+import "strings"
+
+// StreamNameAsPathElement
+//
+// lal derives directories and file names below its configured hls and record
+// output directories from the stream name. A stream name is chosen by the
+// client, so it must end up as exactly one element of those paths: a name such
+// as `..` or `../../x` (or one containing a backslash, on windows) would
+// otherwise make lal create, write and remove files outside the output directory.
+func StreamNameAsPathElement(streamName string) string {
+	s := strings.ReplaceAll(streamName, "/", "_")
+	s = strings.ReplaceAll(s, "\\", "_")
+	if s == ".." {
+		return "__"
+	}
+	return s
+}
+
+// IsPlainPathElement reports whether name can be used as one path element as it is
+func IsPlainPathElement(name string) bool {
+	return name != ".." && !strings.ContainsAny(name, "/\\")
+}
